@@ -14,12 +14,15 @@
      => Proofs/Bisect.v         (bisect_left on a monotone function)
      => Proofs/SinceSeekTop.v   (position = declarative first-in-window)
      => Proofs/SinceSeekList.v  (list forms of the spec and hypotheses).
-   The whole chain is closed: since_seek_exact is proved in full. *)
-From Coq Require Import ZArith List Bool Lia.
+   The whole chain is closed: since_seek_exact is proved in full.
+   Source tie: the last section (shapes, extracted pieces, interpreters). *)
+From Coq Require Import String ZArith List Bool Lia.
 From SK Require Import Model.Base Model.Seek Model.SinceSeek Spec.Lines
      Spec.C04 Proofs.Seek Proofs.SeekSpec Proofs.SinceSeek Proofs.Bisect
      Proofs.SinceSeekWalk Proofs.SinceSeekChain Proofs.SinceSeekTop
-     Proofs.SinceSeekList Proofs.SinceSeekExact Gen.Params.
+     Proofs.SinceSeekList Proofs.SinceSeekExact Model.Skel Model.Stm
+     Model.SequenceSk Model.SinceSeekSk Proofs.SinceSeekSk Gen.Params
+     Gen.SkelTree Gen.XSeek.
 Import ListNotations.
 Open Scope Z_scope.
 
@@ -142,6 +145,82 @@ Proof.
       by (vm_compute; reflexivity). exact Hrun.
 Qed.
 
+(* ---- source tie (T1): the model IS the structure of the current source ----
+   Gen/SkelTree.v holds the tree skeletons of the six functions and
+   Gen/XSeek.v (translator/plugins/seek.py) the seek targets, call arguments
+   and comparison operators, all regenerated from the working tree on every
+   run.  (a) shapes, (b) extracted pieces, (c) interpreting the generated
+   trees with the generated pieces over the model state = the model. *)
+
+(* (a) calls, tests, raises, handlers and returns of the source, in order *)
+Theorem C04_shape_logline_date :
+  calls_only_list tk_logline_date = expected_logline_date.
+Proof. vm_compute. reflexivity. Qed.
+Theorem C04_shape_try_find_line :
+  calls_only_list tk_try_find_line = expected_try_find_line.
+Proof. vm_compute. reflexivity. Qed.
+Theorem C04_shape_tfld : calls_only_list tk_tfld = expected_tfld.
+Proof. vm_compute. reflexivity. Qed.
+Theorem C04_shape_getitem :
+  calls_only_list tk_seeker_getitem = expected_getitem.
+Proof. vm_compute. reflexivity. Qed.
+Theorem C04_shape_run : calls_only_list tk_seeker_run = expected_run.
+Proof. vm_compute. reflexivity. Qed.
+Theorem C04_shape_apply_to_file :
+  calls_only_list tk_apply_to_file = expected_apply_to_file.
+Proof. vm_compute. reflexivity. Qed.
+
+(* (b) what the events do not show *)
+Theorem C04_src_seek_sites : apply_seek_sites = expected_seek_sites.
+Proof. reflexivity. Qed.
+Theorem C04_src_getitem_args : getitem_tfld_args = expected_getitem_args.
+Proof. reflexivity. Qed.
+Theorem C04_src_run_probe_args : forall len,
+  run_tfld_args len = (len, None, false).
+Proof. reflexivity. Qed.
+Theorem C04_src_comparisons : forall d since,
+  getitem_line_info_cmp d since = (since <=? d) /\
+  run_shortcut_cmp d since = (since <=? d).
+Proof.
+  intros d since. unfold getitem_line_info_cmp, run_shortcut_cmp.
+  rewrite Z.geb_leb. split; reflexivity.
+Qed.
+Theorem C04_src_run_misc :
+  run_bisect_fn = "bisect_left"%string /\ run_shortcut_slf = -1 /\
+  run_returns_line_info_start = true.
+Proof. repeat split; reflexivity. Qed.
+
+(* (c) the generated trees, run over the model state with the generated
+   pieces, are the model functions - for all inputs *)
+Theorem C04_apply_to_file_is_source : forall H A L W tsw c since pos0,
+  ap_interp apply_seek_sites (lenZ c) pos0 (run H A L W tsw c since pos0)
+            (calls_only_list tk_apply_to_file)
+  = apply_to_file H A L W tsw c since pos0.
+Proof.
+  intros. rewrite C04_shape_apply_to_file, C04_src_seek_sites.
+  apply ap_interp_correct.
+Qed.
+
+Theorem C04_run_is_source : forall H A L W tsw c since pos0,
+  rn_interp H A L W tsw c since pos0 run_tfld_args run_shortcut_slf
+            run_shortcut_cmp (calls_only_list tk_seeker_run)
+  = run H A L W tsw c since pos0.
+Proof.
+  intros. rewrite C04_shape_run. apply rn_interp_correct.
+  - reflexivity.
+  - reflexivity.
+  - intros d s. apply (C04_src_comparisons d s).
+Qed.
+
+Theorem C04_getitem_is_source : forall H A L W tsw c since st offset,
+  gi_interp H A L W tsw c since st offset getitem_tfld_args
+            getitem_line_info_cmp (calls_only_list tk_seeker_getitem)
+  = getitem H A L W tsw c since st offset.
+Proof.
+  intros. rewrite C04_shape_getitem, C04_src_getitem_args.
+  apply gi_interp_correct. intros d s. apply (C04_src_comparisons d s).
+Qed.
+
 (* ---- non-vacuity ----------------------------------------------------------
    A toy oracle: a line is dated iff it starts with 'd' (100); its date is
    the next byte.  A 7-line log with undated lines at the start, in the
@@ -200,3 +279,6 @@ Print Assumptions C04_since_seek_exact.
 Print Assumptions C04_real_since_seek_exact.
 Print Assumptions C04_no_skip_no_old.
 Print Assumptions C04_first_in_window_is_declarative.
+Print Assumptions C04_apply_to_file_is_source.
+Print Assumptions C04_run_is_source.
+Print Assumptions C04_getitem_is_source.
